@@ -30,6 +30,20 @@ def payload(i, who):
     return KINDS[i % 3](i, who)
 
 
+class _Greeter:
+    """Server application whose connect handler sends to the new session before accepting it."""
+    GREETINGS = ['hello-1', {'hello': 2}, b'\x00hello-3']
+
+    def connect(self, sid, environ):
+        return [('send', sid, g) for g in self.GREETINGS]
+
+    def message(self, sid, data):
+        return []
+
+    def disconnect(self, sid, reason):
+        return []
+
+
 class Interop(core.Scenario):
     def build(self):
         p = self.params
@@ -38,7 +52,8 @@ class Interop(core.Scenario):
         self.iv, self.to = iv, to
         lat = self.lat = p.get('latency', 0.0)
         w = self.world = combo.ComboWorld(p['client'], p['server'],
-                                          server_kwargs=dict(ping_interval=iv, ping_timeout=to, async_handlers=False), latency=lat)
+                                          server_kwargs=dict(ping_interval=iv, ping_timeout=to, async_handlers=False), latency=lat,
+                                          behaviour=_Greeter() if p.get('greet') else None)
         self.conn = w.cw.call('connect', 'http://h', transports=p['transports'])
         if lat:
             # the connection (and the upgrade, which may straddle the first heartbeat) takes a dozen one-way trips
@@ -150,6 +165,10 @@ class Interop(core.Scenario):
         owed_c = [payload(i, 's') for i in range(p['s2c']) if i in self.settled['s']]
         all_s = [payload(i, 'c') for i in range(p['c2s'])]
         all_c = [payload(i, 's') for i in range(p['s2c'])]
+        if p.get('greet'):
+            # what the connect handler sent comes first and is owed like everything else
+            all_c = list(_Greeter.GREETINGS) + all_c
+            owed_c = list(_Greeter.GREETINGS) + owed_c
 
         def subseq_ok(got, owed, allp):
             # got must be an in-order selection of all sent payloads that contains every owed one
@@ -231,6 +250,9 @@ def param_list(ctx, pairs):
                     ps.append(dict(base_p, c2s=n, s2c=0, atonce=True))
                     ps.append(dict(base_p, c2s=0, s2c=n, atonce=True))
                 ps.append(dict(base_p, c2s=0, s2c=0, idle=6))
+                if hb == [1.0, 1.0]:
+                    # the server's connect handler greets the session before it is established
+                    ps.append(dict(base_p, c2s=1, s2c=2, greet=True))
                 if hb == [1.0, 1.0] and tr != ['polling']:
                     # a burst from the server during which one WebSocket write fails, then one more send
                     for k in (0, 1, 2):
@@ -341,7 +363,7 @@ def run(ctx):
         'samples': samples[:4],
         'evaluations': st.executions, 'distinct_nontrivial': len(st.outcomes),
         'rule': '2x2 client/server pairs x transports {[polling],[websocket],both} x heartbeat {(1,1),(2,1)} x conversations: one-directional '
-                'bursts of %r sends with text/JSON/binary payloads, one message of each of %d payload shapes (empty text / dict / list / bytes, nested empties, Unicode, separators, floats, 40-byte binary) in each direction, a 3+3 exchange, an idle period of 6 heartbeat cycles with a lasso check, '
+                'bursts of %r sends with text/JSON/binary payloads, one message of each of %d payload shapes (empty text / dict / list / bytes, nested empties, Unicode, separators, floats, 40-byte binary) in each direction, a 3+3 exchange, an exchange preceded by three greetings sent from inside the connect handler of the server, an idle period of 6 heartbeat cycles with a lasso check, '
                 'and disconnect by either side right after an exchange or after 2 idle cycles. The two applications are parallel scripts: '
                 'the same conversations over a virtual network with one-way delays of 1/16 .. 7/16 s (heartbeat settings chosen so that heartbeats fall inside the handshake and the upgrade while six delays stay within ping_timeout); all interleavings everywhere; one deviation for the small conversations of the %s pairs (thorough: also over a delayed network, and two deviations with free switching for the asyncio/asyncio pair). states = distinct (scenario, both '
                 'event logs) digests.' % (BURSTS, len(ZOO), 'same-kind' if ctx.quick else 'all'),
